@@ -7,7 +7,7 @@ EXPLANATION = (
     "digit run -> push its i64 value, advance its length; '.' '_' -> 0; pl -> 0, alpha -> -3, beta -> -2, rc/pre -> -1 (advance = literal length); nb -> revision := following digit run or 0, nothing pushed; "
     "ASCII letter -> 0 then its rank; anything else -> nothing pushed, advance len_utf8; literal arms precede the letter arm; "
     "D2 the literal guards are ASCII-case-insensitive and the letter value is the same for both cases (value-set propagation over A-Z, a-z); D3 letter rank a..z = 1..26; "
-    "D4-COMPARE the comparison discipline (zero padding, operand provenance, revision last, operator table) = C03's CMP-2..5/CMP-RET verdicts on dewey_cmp/dewey_test, shared as instances of this check; D5 best_match compares with dewey::dewey_cmp on DeweyVersion::new(PkgName::new(pkgN).pkgversion()) (C06)")
+    "D4-COMPARE the comparison discipline (zero padding, operand provenance, revision last, operator table) = C03's CMP-2..5/CMP-RET verdicts on dewey_cmp/dewey_test, shared as instances of this check; D5 best_match compares with dewey::dewey_cmp on DeweyVersion::new(PkgName::new(pkgN).pkgversion()) (C06); the literal arms may equally be a constant table of (literal, weight) searched with find (entries = spec, weight pushed and literal length advanced from the matched entry, no literal empty or a prefix of another), the digit run a helper that cuts at the first non-digit; every literal test must be made on s[idx..]")
 NOT_DECIDED = [
     "that take_while(is_ascii_digit) + parse::<i64> yields the numeric value (std; digit runs <= 18 by the quantifier)",
     "agreement with pkg_install on inputs outside the stated rule",
